@@ -326,5 +326,17 @@ def coherenceProblems (tb : List (Nat × BTR)) (manual : List ManualEdge) : List
   (match (reqList tb manual).find? (fun q₁ => (reqList tb manual).any (fun q₂ => q₁.1 == q₂.1 && q₁.2.1 == q₂.2.1 && q₁.2.2 != q₂.2.2)) with
     | some q => [s!"reqFun@{q.1}->{q.2.1}"] | none => [])
 
+/-- **successor determinism against a per-instruction view of the machine code.**  `single pc` = what lifting the ONE
+    instruction at `pc` gives: its instruction graphs (one; a MIPS branch unit has the branch, its delay slot and the
+    branch's own graph) and its successors.  The translation results agree with it when, for every unit, the
+    transfers they request out of each graph's address (manual edges aside) are exactly: to the next graph of the
+    unit, and out of the last graph the unit's successors — whatever window or block the address was lifted in.
+    The driver evaluates this on the units the reference run executes (verdict `incoherent continuation@…`). -/
+def SingleCoherent (tb : List (Nat × BTR)) (single : Nat → Option (List Function × List (Nat × Option Expr))) : Prop :=
+  ∀ pc gs succs, single pc = some (gs, succs) →
+    (∀ g ∈ gs, graphAt tb g.addr = some g.cfg) ∧
+    (∀ q ∈ pairs (gs.map (·.addr)), ∀ b c, (q.1, b, c) ∈ reqLinks tb ++ reqSuccs tb ↔ (b = q.2 ∧ c = none)) ∧
+    (∀ g, gs.getLast? = some g → ∀ b c, (g.addr, b, c) ∈ reqLinks tb ++ reqSuccs tb ↔ (b, c) ∈ succs)
+
 end Assemble
 end Falcon
